@@ -195,6 +195,15 @@ func (cl *vhCluster) assertConverged(ids []string, gens map[string]int) {
 					vrtAssert(m.Generation >= g, "restarted-node-replaces-its-previous-incarnation")
 				}
 			}
+			if ok && m != nil {
+				// the record every node holds of a running node is that node's running incarnation
+				for j, o := range cl.nodes {
+					if o.up && ids[j] == id {
+						self := cluster.VrtSelf(o.node)
+						vrtAssert(m.Generation == self.Generation && m.Timestamp == self.Timestamp && m.Address == o.addr, "every-view-holds-the-running-incarnation")
+					}
+				}
+			}
 		}
 		for id := range ms {
 			vrtAssert(want[id], "crashed-or-left-node-absent-from-every-view")
@@ -238,14 +247,19 @@ func VH_C18_converge() {
 		cl.assertConverged(ids, nil)
 	}
 
-	fault := vrtChoose(int(vrtParam("faults", 3))) // 0 none, 1 a non-seed node crashes, 2 it crashes and restarts
+	fault := vrtChoose(int(vrtParam("faults", 3))) // 0 none, 1 a non-seed node crashes, 2 it crashes and restarts after detection, 3 it restarts at once
 	var gens map[string]int
 	if fault >= 1 {
 		v := 1 + vrtChoose(n-1) // the victim: any non-seed node
 		oldGen := cluster.VrtSelf(cl.nodes[v].node).Generation
 		cl.crash(cl.nodes[v])
 		// the survivors keep gossiping; the victim's silence exceeds the detection timeout
-		for r := 0; r < int(vrtParam("crashrounds", 8)); r++ {
+		rounds := int(vrtParam("crashrounds", 8))
+		if fault == 3 {
+			rounds = 1 // a quick restart: the others still hold the previous incarnation's record
+			vrtReach("quick-restart")
+		}
+		for r := 0; r < rounds; r++ {
 			cl.round(time.Second)
 			cl.snapshot("after-crash-round")
 		}
